@@ -139,15 +139,19 @@ def handleOp (op : String) (args : List Arg) : Option (String × String) :=
       | none => "-"
     some (fl (datetimeToNumber t), spec)
   | "DATE", [.num y, .num m, .num d] =>
-    let spec := match Spec.C18.date (pyInt y) (pyInt m) (pyInt d) with
-      | some s => if s ≤ Spec.C18.maxSerial then (S.date (s : Rat)).wire else "-"
+    -- outside the statement: the month offset alone leaves the years 1 … 9999
+    let y' := if pyInt y < 1900 then pyInt y + 1900 else pyInt y
+    let ym := Spec.C18.monthShift y' 1 (pyInt m - 1)
+    let spec := if 0 ≤ pyInt y ∧ pyInt y ≤ 9999 ∧ (ym.1 < 1 ∨ ym.1 > 9999) then "-" else
+      match Spec.C18.date (pyInt y) (pyInt m) (pyInt d) with
+      | some s => (S.date (s : Rat)).wire
       | none => "ERR"
     some (showRes dtWire (DATE y m d), spec)
   | "EDATE", [a, .num k] =>
     (asDT a).map fun r =>
       let spec := match specDateOfArg a with
         | some c => (match Spec.C18.edate c (pyInt k) with
-          | some s => if s ≤ Spec.C18.maxSerial then (S.date (s : Rat)).wire else "-"
+          | some s => (S.date (s : Rat)).wire
           | none => "ERR")
         | none => "-"
       (bind1 r fun t => showRes dtWire (EDATE t k), spec)
@@ -155,7 +159,7 @@ def handleOp (op : String) (args : List Arg) : Option (String × String) :=
     (asDT a).map fun r =>
       let spec := match specDateOfArg a with
         | some c => (match Spec.C18.eomonth c (pyInt k) with
-          | some s => if s ≤ Spec.C18.maxSerial then fl (s : Rat) else "-"
+          | some s => fl (s : Rat)
           | none => "ERR")
         | none => "-"
       (bind1 r fun t => showRes fl (EOMONTH t k), spec)
